@@ -29,7 +29,8 @@ def lib_crash(out):
     if not m:
         return None
     tail = out[m.start():]
-    g = re.search(r"^goroutine \d+ \[running\]:\n((?:.+\n?)+)", tail, re.M)
+    # "goroutine 7 [running]:" - or, for fatal errors (stack overflow ...), "goroutine 7 gp=0x.. m=3 mp=0x.. [running]:"
+    g = re.search(r"^goroutine \d+ (?:gp=\S+ m=\S+ (?:mp=\S+ )?)?\[running[^\]]*\]:\n((?:.+\n?)+)", tail, re.M)
     if not g:
         return None
     for line in g.group(1).splitlines():
